@@ -350,6 +350,12 @@ class C10(ExprProp):
                     continue
                 items.append((Call(f, [L(str(i + 1)) for i in range(k)]), [], "arity"))
         cases = expr_cases(items)
+        # "a wrong number of arguments is an error", also when what stands between the parentheses is
+        # not an argument at all (blanks, brace escapes, which parse to loose tokens)
+        for f in ("floor", "ceil", "round"):
+            for a in ("", " ", "{}", "{ }", "{}, {}", "  {}  "):
+                for t in (f"{f}({a})", f"1 + {f}({a})"):
+                    cases.append(Case("query " + C.hexs(t), "arity-no-argument", t, expect="ERR"))
         # unit carried through: f(x U) has the value of f(x) and the unit U
         from .props_units import vocab
         v = vocab()
